@@ -779,3 +779,95 @@ Example fixed_race_run :
   let l := lexecG chk_fixed (lstart false race_script) (race_sched ++ [2;2;2;2]) in
   uaf l = 0 /\ alive l = false /\ lfinished l = true.
 Proof. vm_compute. auto. Qed.
+
+(* ------------------------------------------------------------------ inside the contract every run can be completed, whatever happened
+   so far: a measure that every step decreases *)
+Definition opcost (o : lop) : nat :=
+  match o with LEra n E => n * (E * 10 + 9) + 1 | LDestroy | LGDestroy => 5 | _ => 1 end.
+Definition cpcost (c : cpc) : nat :=
+  match c with CNext => 4 | CYield => 4 | CFillOut => 3 | CFillIn => 2 | CFree => 1 end.
+Definition lmeas (l : lstate) : nat := meas (epis l) (bar l) + sum opcost (script l) + cpcost (cp l).
+
+Lemma lmeas_cstep : forall l l', linv l -> cstep l = Some l' -> lmeas l' < lmeas l.
+Proof.
+  intros l l' (Hu & H) Hs. unfold cstep, cstepG in Hs.
+  destruct l as [b m E al gm gs c sc u]; unfold lmeas; simpl in *.
+  assert (Hck : forall r, fresh b -> destroy_checkG chk_code (mkl b m E al gm gs CNext r u) = mkl b m E al gm gs CFillOut r u).
+  { intros r (_ & _ & Hb). unfold destroy_checkG, chk_code, set_cp; simpl. rewrite Hb. reflexivity. }
+  destruct c; try contradiction.
+  - destruct al.
+    + destruct H as [(Hinv & Hm & Hg & Hok) | (Hset & Hfr & Hok)].
+      * destruct sc as [|o r]; [discriminate|]. destruct o; simpl in Hok; try discriminate.
+        destruct (all_done E b); [|discriminate]. inversion Hs; subst l'. simpl. lia.
+      * pose proof (settled_all_done _ _ Hset) as Hd.
+        destruct sc as [|o r]; [discriminate|].
+        destruct o; rewrite ?Hd in Hs;
+          try (destruct gs); try rewrite (Hck _ Hfr) in Hs; inversion Hs; subst l'; unfold meas; simpl; try lia.
+        all: rewrite sum_repeat; unfold meas_t at 1; simpl; rewrite Nat.sub_0_r; lia.
+    + destruct H as (Hset & Hok).
+      pose proof (settled_all_done _ _ Hset) as Hd.
+      destruct sc as [|o r]; [discriminate|].
+      destruct o; simpl in Hok; try discriminate; rewrite ?Hd in Hs;
+        try (destruct gs); try discriminate; inversion Hs; subst l'; unfold meas; simpl; lia.
+  - destruct H as (_ & Hset & _). inversion Hs; subst l'. simpl.
+    rewrite (settled_map_id E b rel_out rel_out_call Hset). unfold meas; simpl. lia.
+  - destruct H as (_ & Hset & _). inversion Hs; subst l'. simpl.
+    rewrite (settled_map_id E b rel_in rel_in_call Hset). unfold meas; simpl. lia.
+  - destruct H as (_ & _ & r & [(Hsc & _) | (Hsc & _)]); subst sc; inversion Hs; subst l'; simpl; lia.
+Qed.
+
+Lemma lmeas_lstep : forall l i l', linv l -> lstep l i = Some l' -> lmeas l' < lmeas l.
+Proof.
+  intros l i l' H Hs. unfold lstep, lstepG in Hs.
+  destruct (i <? nthr l).
+  - destruct H as (Hu & H).
+    assert (Hns : settled (epis l) (bar l) -> False).
+    { intros Hset. rewrite (pstep_settled_none l i Hset) in Hs. discriminate. }
+    destruct (cp l) eqn:Hc; try contradiction;
+      try (destruct H as (_ & Hset & _); exfalso; auto).
+    destruct (alive l) eqn:Hal; [|destruct H as (Hset & _); exfalso; auto].
+    destruct H as [(Hinv & Hm & Hg & Hok) | (Hset & _)]; [|exfalso; auto].
+    unfold pstep in Hs.
+    destruct (nth_error (thrs (bar l)) i) as [t|] eqn:Hi; [|discriminate].
+    assert (Hnull : (gmode l && negb (gset l) && is_call t)%bool = false).
+    { destruct Hg as [-> | ->]; simpl; auto. rewrite andb_false_r. auto. }
+    rewrite Hnull in Hs.
+    destruct (step (maxb l) (epis l) (bar l) i) as [b'|] eqn:Hst; [|discriminate].
+    inversion Hs; subst l'; clear Hs. rewrite Hm in Hst.
+    pose proof (meas_step _ _ _ _ _ Hinv Hst). unfold lmeas; simpl. lia.
+  - destruct (i =? nthr l); [|discriminate]. apply lmeas_cstep; auto.
+Qed.
+
+Lemma linv_completes : forall k l, linv l -> lmeas l <= k -> exists sched, lfinished (lexec l sched) = true.
+Proof.
+  induction k as [|k IH]; intros l H Hk.
+  - destruct (lfinished l) eqn:Hf; [exists []; auto|].
+    destruct (linv_no_deadlock l H Hf) as (i & Hen). unfold lenabled in Hen.
+    destruct (lstep l i) as [l'|] eqn:Hs; [|discriminate].
+    pose proof (lmeas_lstep _ _ _ H Hs). lia.
+  - destruct (lfinished l) eqn:Hf; [exists []; auto|].
+    destruct (linv_no_deadlock l H Hf) as (i & Hen). unfold lenabled in Hen.
+    destruct (lstep l i) as [l'|] eqn:Hs; [|discriminate].
+    pose proof (lmeas_lstep _ _ _ H Hs) as Hlt.
+    pose proof (linv_lstep chk_code chk_code_fresh _ _ _ H Hs) as H'.
+    destruct (IH l' H') as (sched & Hsched); [lia|].
+    exists (i :: sched). unfold lexec, lexecG. simpl. unfold lstepG_or_stay. fold (lstep l i). rewrite Hs. exact Hsched.
+Qed.
+
+Lemma life_completes_lemma : forall (gm : bool) (sc : list lop) (sched : list nat),
+    okscript gm MD false 0%Z sc = true ->
+    exists rest, lfinished (lexec (lstart gm sc) (sched ++ rest)) = true.
+Proof.
+  intros gm sc sched H.
+  pose proof (linv_lexec chk_code chk_code_fresh sched _ (linv_start gm sc H)) as Hl.
+  destruct (linv_completes _ _ Hl (le_n _)) as (rest & Hr).
+  exists rest. unfold lexec, lexecG in *. rewrite fold_left_app. exact Hr.
+Qed.
+
+Lemma life_step_decreases_lemma : forall (gm : bool) (sc : list lop) (sched : list nat) (i : nat) (l' : lstate),
+    okscript gm MD false 0%Z sc = true ->
+    lstep (lexec (lstart gm sc) sched) i = Some l' -> lmeas l' < lmeas (lexec (lstart gm sc) sched).
+Proof.
+  intros gm sc sched i l' H Hs. eapply lmeas_lstep; eauto.
+  apply (linv_lexec chk_code chk_code_fresh). apply linv_start. exact H.
+Qed.
